@@ -41,7 +41,8 @@ def main():
                 continue
             r = json.load(open(rp))
             res = r["quick_check_results_with_change_applied"]
-            rows.append("| %s | %s | %s |" % (n, ", ".join(sorted(res)), ", ".join(r["false_alarms"]) or "none"))
+            rows.append("| %s | %s | %s |" % (n + (" (obsolete: written against an earlier tree, see result.json)" if r.get("obsolete") else ""),
+                                              ", ".join(sorted(res)), ", ".join(r["false_alarms"]) or "none"))
         with open(os.path.join(bd, "README.md"), "w") as f:
             f.write("# Behaviour-preserving changes (false-alarm tests)\n\nEach directory: `patch.diff`, the sub-agent's `notes.md` (why the change "
                     "preserves behaviour), `result.json` (quick checks run with the change applied; all must exit 0).\n\n"
